@@ -19,7 +19,9 @@ OK = ("fun c => let '(g, s1, s0, v) := c in "
       "option_eqb (pair_eqb String.eqb String.eqb) (validate_grammar true g) v")
 
 VOCAB = ["foo", "foo_bar", "'a'", "'ab'", "NAME", "NAME_X", "(foo bar)", "foo?", "[foo bar]", "foo*", "&foo",
-         "x=foo", "','.foo+"]
+         "x=foo", "','.foo+", "'foo'", '"foo"', "'NAME'", '"a"']
+# items that render alike once quotes, names or punctuation are dropped, but are different items
+LOOKALIKE = ["foo", "'foo'", '"foo"', "NAME", "'NAME'", "'a'", '"a"', "a"]
 
 
 def real_validate(g) -> tuple[str, str] | None:
@@ -65,6 +67,12 @@ def grammar_texts(tier: str):
         pairs = r.sample(pairs, 500)
     for a, b in pairs:
         yield "start: " + " ".join(a) + " | " + " ".join(b) + "\n"
+    look = [[a] for a in LOOKALIKE] + [[a, b] for a in LOOKALIKE[:5] for b in LOOKALIKE[:5]]
+    lpairs = list(itertools.product(look, look))
+    if tier == "quick":
+        lpairs = r.sample(lpairs, 250)
+    for a, b in lpairs:
+        yield "start: " + " ".join(a) + " | " + " ".join(b) + "\na: NAME\n"
     n = 300 if tier == "quick" else 3000
     for _ in range(n):
         k = r.randint(2, 4)
